@@ -126,3 +126,26 @@ PROPS["C16"] = dict(
                                raw_control_char=10000, leading_zero=10000, exponent_without_digits=5000, trailing_bytes=100000)),
     assumptions=["documents without U+0000 in member names (C01 known finding)", "the trailing-bytes forms are separated by a space from a final number/literal so they cannot extend the value"],
 )
+
+PROPS["C02"] = dict(
+    harness="C02_serialize.cpp", level="exploration",
+    technique="property testing over API-built trees x formatting flags with an independent RFC 8259 parser + exact rounding judge as oracle, json-c round trip (equal, re-serialise byte-identical) as second oracle; exhaustive one-byte strings x 64 flag sets, binade x mantissa grid of doubles, powers of ten",
+    level_text="generated trees (arbitrary byte strings incl. NUL/control/invalid UTF-8, int64/uint64 boundaries, finite doubles over all binades, "
+               "retained number text, nesting) serialised under generated flag sets (every 25th case under all 64): the text must be accepted by the "
+               "independent parser and denote the tree exactly, the reported length must match, and for non-colour flags json-c must re-parse it (default "
+               "and strict) to an equal tree that re-serialises byte-identically",
+    level_note="trusts /verif/model's reference parser and rounding judge; new_double_s texts are generated as valid non-integer number texts denoting the node's double (the caller's obligation per json_object.h)",
+    rule="(tree, flag sets); non-trivial = the tree has a double, a string needing an escape, or nesting >= 2; distinct by hash of (tree, first two flag sets)",
+    quick=[dict(mode="trees", cases=100000, workers=8, maxbytes=2500),
+           dict(mode="bytes1", enum=True, size=16384, workers=4),
+           dict(mode="pow10", enum=True, size=11700, workers=4),
+           dict(mode="dblgrid", enum=True, size=98256, workers=8)],
+    thorough=[dict(mode="trees", cases=4000000, workers=16, maxbytes=5000),
+              dict(mode="bytes1", enum=True, size=16384, workers=4),
+              dict(mode="pow10", enum=True, size=11700, workers=4),
+              dict(mode="dblgrid", enum=True, size=98256, workers=8),
+              dict(mode="trees", fuzz=True, secs=300, jobs=8, max_len=2048)],
+    min_labels=dict(quick=dict(has_double=20000, needs_escape=15000, embedded_nul=3000, invalid_utf8=5000, uint64_node=5000, retained_text=3000, nesting_ge2=10000, all64=1500)),
+    assumptions=["finite doubles only (NaN/Infinity are not JSON; the serialiser's non-standard output for them is outside the property)",
+                 "member names are C strings (no NUL) as the API requires"],
+)
